@@ -65,7 +65,9 @@ def area(triangles=None, crosses=None):
     if len(crosses.shape) == 1:
         # support 2D triangles
         return np.abs(crosses) / 2.0
-    return np.sqrt((crosses**2).sum(axis=1)) / 2.0
+    # `hypot` does not square its arguments: the sum of squares under- or
+    # overflows for lengths whose product is well inside the float range
+    return np.hypot(np.hypot(crosses[:, 0], crosses[:, 1]), crosses[:, 2]) / 2.0
 
 
 def normals(triangles=None, crosses=None):
